@@ -285,6 +285,29 @@ func buildEap(d J) (*eap.EAP, error) {
 	return e, nil
 }
 
+// poolTransforms lays the five transform lists of a proposal out in ONE backing array, each list a two-index slice of it
+// (len < cap, the spare capacity of a list being the lists that follow): the way a caller that carves a proposal out of a
+// transform pool holds them.  Reading the lists is unaffected; code that appends to a list it was handed writes into its
+// neighbours, and encoding a message must not do that (C20).
+func poolTransforms(pr *message.Proposal) {
+	lists := []*message.TransformContainer{&pr.EncryptionAlgorithm, &pr.ExtendedSequenceNumbers, &pr.DiffieHellmanGroup, &pr.IntegrityAlgorithm, &pr.PseudorandomFunction}
+	total := 0
+	for _, l := range lists {
+		total += len(*l)
+	}
+	pool := make(message.TransformContainer, total)
+	off := 0
+	for _, l := range lists {
+		n := len(*l)
+		if n == 0 {
+			continue
+		}
+		copy(pool[off:], *l)
+		*l = pool[off : off+n]
+		off += n
+	}
+}
+
 func buildPayload(d J) (message.IKEPayload, error) {
 	switch gs(d, "k") {
 	case "SA":
@@ -314,6 +337,7 @@ func buildPayload(d J) (message.IKEPayload, error) {
 					return nil, fmt.Errorf("transform container %d", c)
 				}
 			}
+			poolTransforms(pr)
 			sa.Proposals = append(sa.Proposals, pr)
 		}
 		return sa, nil
